@@ -37,6 +37,7 @@ class Subroutine(Scope):
         self.missing_args: list = []
         self.mod_scope: bool = mod_flag
         self.link_obj: Subroutine | Function | None = None
+        self.own_interface: tuple | None = None
 
     def is_mod_scope(self):
         return self.mod_scope
@@ -44,7 +45,18 @@ class Subroutine(Scope):
     def is_callable(self):
         return True
 
+    def restore_interface(self):
+        """Undo copy_interface(), the prototype may have changed or disappeared"""
+        if self.own_interface is None:
+            return
+        self.args, self.args_snip = self.own_interface
+        self.own_interface = None
+        self.arg_objs = []
+        self.in_children = []
+
     def copy_interface(self, copy_source: Subroutine) -> list[str]:
+        if self.own_interface is None:
+            self.own_interface = (self.args, self.args_snip)
         # Copy arguments
         self.args = copy_source.args
         self.args_snip = copy_source.args_snip
